@@ -24,7 +24,7 @@ ASSUMPTIONS = [
     'parameters declared per_instance=False are exempt from the metadata-isolation clause (they opted out)',
 ]
 REQUIRED = {'view_checks': 20000, 'instances': 1000, 'class_sets': 500, 'metadata_edits': 500, 'inplace_mutations': 500, 'instance_updates': 200,
-            'falsy_instance_cases': 100}
+            'falsy_instance_cases': 100, 'ctor_pending_references': 50}
 
 _st = {}
 _n = [0]
@@ -56,6 +56,12 @@ class Gen:
 
     def __repr__(self):
         return f'Gen{self.state}'
+
+
+def _when_ready(ready):
+    if not ready:
+        raise _st['param'].Skip
+    return ['linked']
 
 
 def mutable_ids(o, acc=None):
@@ -96,7 +102,7 @@ def fresh_value(kind):
     return ('tok', t)
 
 
-TEMPLATES = ['plist', 'pdict', 'ptuple', 'num', 'sel', 'esel', 'const', 'shared', 'lst', 'dyn', 'dyn']
+TEMPLATES = ['plist', 'pdict', 'ptuple', 'num', 'sel', 'esel', 'const', 'shared', 'lst', 'rlst', 'rconst', 'dyn', 'dyn']
 
 
 def make_param(param, tname, rng):
@@ -110,6 +116,11 @@ def make_param(param, tname, rng):
         return param.Parameter(default=fresh_value('tuple'), instantiate=inst_flag), dict(kind='tuple', instantiate=inst_flag)
     if tname == 'lst':
         return param.List(default=fresh_value('list'), instantiate=inst_flag), dict(kind='list', instantiate=inst_flag)
+    if tname == 'rlst':
+        # accepts references: a constructor argument may be a reference that has no value yet
+        return param.List(default=fresh_value('list'), instantiate=True, allow_refs=True), dict(kind='list', instantiate=True, refs=True)
+    if tname == 'rconst':
+        return param.Parameter(default=fresh_value('tok'), constant=True, allow_refs=True), dict(kind='tok', instantiate=False, constant=True, refs=True)
     if tname == 'num':
         return param.Number(default=1.5, bounds=(0, 10)), dict(kind='num', instantiate=False)
     if tname == 'dyn':
@@ -160,6 +171,8 @@ def run_case(idx, rng, P, rep):
                     kw = {}
                     if first.get('constant'):
                         kw['constant'] = True
+                    if first.get('refs'):
+                        kw['allow_refs'] = True
                     if first.get('per_instance') is False:
                         continue
                     if n in ('sel', 'esel'):
@@ -175,6 +188,10 @@ def run_case(idx, rng, P, rep):
                 own_default[(d, n)] = pobj.default
         base = type(f'O{idx}_{d}', (base,), ns)
         classes.append(base)
+    class Pending(param.Parameterized):
+        ready = param.Boolean(default=False)
+
+    pending_sources = []
     insts = []      # dict(obj, cls index, own={p: obj}, touched=set())
     kinds = []
     trace = []
@@ -258,9 +275,17 @@ def run_case(idx, rng, P, rep):
                     kw[p] = rng.choice(list(classes[ci].param[p].objects))
                 else:
                     kw[p] = fresh_value(sp['kind'])
+        ckw = dict(kw)
+        for p in names:
+            if specs[p].get('refs') and p not in kw and rng.random() < 0.4:
+                # a reference without a value yet (its function raises param.Skip): as good as not passing the argument
+                src = Pending()
+                pending_sources.append(src)
+                ckw[p] = param.bind(_when_ready, src.param.ready)
+                rep.count('ctor_pending_references')
         fb = class_flags()
-        o = K(**kw)
-        check_flags(fb, f'{K.__name__}({", ".join(sorted(kw))})')
+        o = K(**ckw)
+        check_flags(fb, f'{K.__name__}({", ".join(sorted(ckw))})')
         inst = dict(obj=o, ci=ci, own={}, touched=set())
         for p in names:
             sp = specs[p]
